@@ -246,6 +246,50 @@ theorem lift_error_aux (f : LeafFn) : ∀ n, ∀ (v : Val), sizeOf v ≤ n → v
       · cases h
 
 
+/-! ### companions without a matching container are passed whole -/
+
+theorem itemByI_no_match (i n : Nat) : ∀ m, ∀ (c : Val), sizeOf c ≤ m →
+    (∀ q cs, (c.at q = some (.list cs) ∨ c.at q = some (.tuple cs)) → cs.length ≠ n) →
+    itemByI i n c = c := by
+  intro m
+  induction m with
+  | zero => intro c h; cases c <;> simp at h
+  | succ m ih =>
+    intro c hs h
+    have helem : ∀ (cs : List Val), (∀ x ∈ cs, sizeOf x ≤ m) →
+        (∀ (j : Nat) (x : Val), cs[j]? = some x → ∀ (q : Path) (ds : List Val),
+          (x.at q = some (.list ds) ∨ x.at q = some (.tuple ds)) → ds.length ≠ n) →
+        cs.map (itemByI i n) = cs := by
+      intro cs hsz hq
+      have : ∀ x ∈ cs, itemByI i n x = id x := by
+        intro x hx
+        obtain ⟨j, hj⟩ := List.getElem?_of_mem hx
+        exact ih x (hsz x hx) (hq j x hj)
+      rw [List.map_congr_left this, List.map_id]
+    cases c with
+    | cell a => simp [itemByI]
+    | dict kvs => simp [itemByI]
+    | list cs =>
+      have hlen : cs.length ≠ n := h [] cs (Or.inl (by simp [Val.at]))
+      simp only [itemByI, hlen, ↓reduceIte, itemByIList_eq_map]
+      rw [helem cs]
+      · intro x hx
+        have := List.sizeOf_lt_of_mem hx
+        simp at hs; omega
+      · intro j x hj q ds hd
+        apply h (.idx j :: q) ds
+        simpa [Val.at, Val.child, hj] using hd
+    | tuple cs =>
+      have hlen : cs.length ≠ n := h [] cs (Or.inr (by simp [Val.at]))
+      simp only [itemByI, hlen, ↓reduceIte, itemByIList_eq_map]
+      rw [helem cs]
+      · intro x hx
+        have := List.sizeOf_lt_of_mem hx
+        simp at hs; omega
+      · intro j x hj q ds hd
+        apply h (.idx j :: q) ds
+        simpa [Val.at, Val.child, hj] using hd
+
 /-! ### positional = keyword passing -/
 
 /-- "the parameter of `f` that follows `k` positional companions is called `name`": passing one more
